@@ -13,6 +13,11 @@ package main
 //	late_registration  entries registered after start-up (app.Handler() + a round of requests), then RebuildTree()
 //	registration_sites Use without prefix / with a prefix list, Route(p).Get / .All, Group(p, middleware),
 //	                   Group(..).Use, a pattern without its leading slash, an escape inside the bucket key
+//	chain_end          table LENGTH: every table of exactly 3 and 4 entries over a reduced alphabet (endpoints of two
+//	                   methods + Use x a literal and a parameter pattern x reply/Next), i.e. every order of
+//	                   {middleware before / between / after endpoints, endpoints that pass on, endpoints of the other
+//	                   method}: what the END of a chain of three and four matches replies (404 / 405 + Allow / not 405
+//	                   once an endpoint of the request's method ran)
 //
 // Violations found here keep the class names of sig.go; a deviation that disappears when the new dimension is
 // taken away gets an `only-with=` suffix (judge in main.go).
@@ -27,10 +32,11 @@ const (
 	famOverrides
 	famLate
 	famSites
+	famEnd
 	nFams
 )
 
-var famNames = [nFams]string{"main", "methods", "override_targets", "late_registration", "registration_sites"}
+var famNames = [nFams]string{"main", "methods", "override_targets", "late_registration", "registration_sites", "chain_end"}
 
 var (
 	// methods family
@@ -62,6 +68,13 @@ var (
 	siteCoreKinds = []int{kGET, kPOST, kUSE, kALL}
 	siteCoreBehs  = []int{bReply, bNext, bPathX}
 	siteReqPaths  = []string{"/", "/abc", "/x", "/a:b", "/ab", "/ab/a", "/abc/d"}
+	// chain-end family (thorough: one more kind and pattern)
+	endKinds        = []int{kGET, kPOST, kUSE}
+	endPatterns     = []string{"/abc", "/:p"}
+	endKindsThor    = []int{kGET, kPOST, kUSE, kALL}
+	endPatternsThor = []string{"/", "/abc", "/:p"}
+	endBehs         = []int{bReply, bNext}
+	endReqPaths     = []string{"/", "/abc", "/x", "/abc/d"}
 )
 
 var (
@@ -142,6 +155,21 @@ func sideItems(quick bool) []item {
 	for _, c := range coreA {
 		add(famSites, []entry{c}, site, sitePaths, lateReqMethods, mainCfgIdx, 0)
 	}
+
+	// ---- chain end: every table of exactly 3 and 4 entries over the reduced alphabet
+	end := alphabetOver(endKinds, endPatterns, endBehs, 1)
+	if !quick {
+		end = alphabetOver(endKindsThor, endPatternsThor, endBehs, 1)
+	}
+	endPaths := pathIdx(endReqPaths)
+	for _, e1 := range end {
+		for _, e2 := range end {
+			add(famEnd, []entry{e1, e2}, end, endPaths, lateReqMethods, mainCfgIdx, 0)
+			for _, e3 := range end {
+				add(famEnd, []entry{e1, e2, e3}, end, endPaths, lateReqMethods, mainCfgIdx, 0)
+			}
+		}
+	}
 	return items
 }
 
@@ -183,6 +211,25 @@ func famHit(fam, ci int, tbl []entry, late, rm int, ref *refResult) bool {
 				return true
 			}
 		}
+	case famEnd:
+		// the end of a chain of >= 3 matches decides: nothing replied, and either 404/405 is fixed, or an endpoint of the
+		// request's method ran, a LATER entry matched after it and another method has an endpoint on the path
+		if ref.reply || ref.n < 3 {
+			return false
+		}
+		if ref.spec {
+			return true
+		}
+		if ref.no405 && kindIsUse(tbl[ref.trace[ref.n-1]].kind) {
+			m, p := int(ref.stM[ref.n]), int(ref.stP[ref.n])
+			for om := range mlist[ci] {
+				for _, e := range tbl {
+					if om != m && !kindIsUse(e.kind) && entryHandles(ci, e, om, p) {
+						return true
+					}
+				}
+			}
+		}
 	}
 	return false
 }
@@ -204,7 +251,15 @@ func sideBounds(quick bool) map[string]any {
 	if !quick {
 		late += "; [e1 e2 | e3] and [e1 | e2 e3] over kinds " + fmt.Sprint(kindNamesOf(late3Kinds)) + " x patterns " + fmt.Sprint(late3Patterns)
 	}
+	endK, endP := endKinds, endPatterns
+	if !quick {
+		endK, endP = endKindsThor, endPatternsThor
+	}
 	return map[string]any{
+		"chain_end": map[string]any{
+			"kinds": kindNamesOf(endK), "patterns": endP, "behaviours": behNamesOf(endBehs), "table_lengths": []int{3, 4},
+			"request_methods": []string{"GET", "POST", "HEAD"}, "request_paths": endReqPaths, "configs": 8, "tables": sideTables.tables[famEnd],
+		},
 		"methods": map[string]any{
 			"kinds": kindNamesOf(metKinds), "patterns": metPatterns, "behaviours": behNamesOf(metBehs), "max_entries": 2,
 			"request_methods": methUniverse, "request_paths": metReqPaths, "configs": metCfg,
@@ -234,5 +289,6 @@ func sideRule() string {
 	return "methods: every table of <=2 entries over registrations for each of the app's methods (own registration method, Add with lower-case names, an extension method) + Use + All, fired with all 10 method names, under the default and two custom RequestMethods lists; " +
 		"override_targets: every [override], [override, target] and [before, override, target] table with Path() targets needing case folding / slash trimming / unescaping / shorter than the bucket key, path+method overridden by one handler, and a handler returning an error; " +
 		"late_registration: every 2-entry table split before/after start-up (all entries late, or the last one), requests before and after app.RebuildTree(); " +
-		"registration_sites: every 1- and 2-entry table mixing Use without prefix / with a prefix list, Route(p).Get/.All, Group(p, mw), Group(/ab).Use and a slash-less pattern with the core kinds"
+		"registration_sites: every 1- and 2-entry table mixing Use without prefix / with a prefix list, Route(p).Get/.All, Group(p, mw), Group(/ab).Use and a slash-less pattern with the core kinds; " +
+		"chain_end: every table of exactly 3 and exactly 4 entries over GET/POST/Use (thorough: + All) x a literal and a parameter pattern (thorough: + \"/\") x reply/Next, so that every order of middleware before/between/after endpoints of the request's and of another method occurs and the reply at the end of a chain of 3 and 4 matches is judged (404, 405 + exact Allow set, or 'not 405' once an endpoint of the final method and path ran)"
 }
